@@ -183,9 +183,17 @@ def slice_statements(ct, pat_a, pat_b, name):
             elif t.text == ";" and d == 0:
                 at_start = True
     def find(pat):
+        after = False
+        if pat and pat[0] == ">":      # `>pattern`: the statement that follows the one starting with pattern
+            after, pat = True, pat[1:]
         hits = [s0 for s0 in starts if [x.text for x in ct[s0:s0 + len(pat)]] == pat]
         if len(hits) != 1:
             raise ExtractError(f"STMTS anchor {' '.join(pat)!r} matched {len(hits)} statements in {name}")
+        if after:
+            later = [s0 for s0 in starts if s0 > hits[0]]
+            if not later:
+                raise ExtractError(f"STMTS anchor {' '.join(pat)!r}: no following statement in {name}")
+            return later[0]
         return hits[0]
     a = find(pat_a)
     b = find(pat_b)
